@@ -65,6 +65,143 @@ PROPS = {
         "level_text": "All lattice laws are Coq theorems over ALL well-formed types (every list depth <= 30, every nullability pattern, every base name) and ALL field values, closed under the global context: intersect is commutative, idempotent, associative, a lower bound, the greatest lower bound, and None exactly when base or list depth differ; is_scalar_only_subtype is a partial order; equal_ignoring_nullability is an equivalence implied by subtyping; validity is monotone (all values) and validity for a meet is validity for both (enum-free values); intersect never panics, new_list_type panics exactly at 30 levels, is_valid_value panics exactly when its scan reaches an Enum (defect F6, accounted under C12). The mask-level transcription (with fuel 33) is proved equal to structural recursion on an abstract type view. The tie re-runs the real functions against the model on ~17k cases per run, exhaustively on the 90-type family.",
         "level_note": "Trusted: Coq kernel; the transcription Ty.v (tied by the differential run only); the (name, mask) reading of Type through the __verif_mask hook; the harness and renderers.",
     },
+    "C18": {
+        "coq": "theories/Properties/C18.v",
+        "sub": "c18",
+        "bin": "tfh_c18",
+        "n": {"quick": 4000, "thorough": 60000},
+        "level": "proof",
+        "search_factor": 2,
+        "rule": "single-field structs `{x: T}` for 40 target types T (i8..u64, isize, usize, f32, f64, bool, String, (), Option/Vec/tuple combinations incl. Option<Option<i64>>, Vec<Option<u8>>, Vec<Vec<u16>>, Vec<(i64,String)>, ((i8,u8),String)) x a 156-value boundary set (every iN/uN limit and limit+-1 as Int64 and as Uint64 when representable; 0, -1, 2^24+-1, 2^53, 2^53+1; floats +-0.0, 1.5, 1e300, f64::MAX, subnormals, the f32 limits and rounding ties, inf, NaN; strings; bools; Null; Enum; 37 lists incl. wrong tuple lengths, nulls, nested lists, enums at every position) plus n seeded type-directed random values; multi-field structs M1/M2/M3 over the full product of per-field {absent, good, out-of-range, wrong kind, null, Enum} choices with extra keys sorted before/after (2 247 rows); 8 parsed queries giving 16 real EdgeParameters maps decoded into 3-4 structs each. A case is non-trivial unless the implementation's answer is a plain kind mismatch (`ERR:type`) on a value containing no non-empty list; distinct by (struct, source, row). The oracle (i128 / bit arithmetic, no model) checks on every case: an integer decodes to exactly itself iff it fits, every Ok field equals its source value, every representable row decodes, no panic.",
+        "trusted_base": TB_COMMON + [
+            "serde 1.0.229 behaviour is MODELLED third-party code: which visit_* each FieldValue variant reaches and what the impl_deserialize_num!/Bool/String/Option/Vec/Tuple/Unit/IgnoredAny visitors, serde_derive's struct visitor and serde::__private::de::missing_field do with it (Decode.v transcribes serde_core/src/de/impls.rs); tied to the real crates only by the differential run",
+            "IEEE-754 `as` casts (i64/u64 -> f64/f32, f64 -> f32) are modelled as round-to-nearest-even on dyadic numbers (round_mag); f32 NaN payloads are not modelled (all f32 NaNs render alike)",
+            "the deserializer Error is classified by message text (range / type / len / missing) in the harness",
+            "isize/usize are identified with i64/u64 (64-bit platform)",
+        ],
+        "assumptions": ["row values are well-formed FieldValues (i64/u64 ranges); floats finite for the f32-narrowing statement (FieldValue's documented invariant)", "a row is a map: keys are distinct (BTreeMap)"],
+        "level_text": "Coq theorems over ALL row values and ALL targets (any nesting of Option/Vec/tuples; all 8 integer targets x both integer kinds x all 2^64 integers of either signedness), closed under the global context: an in-range integer decodes to exactly itself and an out-of-range one is a returned Err(range), never a wrapped/truncated number (decode_int_range/int_ok/int_spec, also at row level); outside the two F16 classes every Ok result denotes the row value (decode_exact: same integer/string/bool/float bits, None iff null, element-wise lists, f32 numerically equal to the f64); the full-strength statement is refuted with the witnesses Int64(2^53+1)->f64, Uint64(u64::MAX)->f64, Float64(1e300)->f32=inf; the classes are characterised exactly (the `as` result equals the source iff the integer has <= 53/24 significant bits, resp. iff some finite binary32 equals the binary64 value) from a proved round-to-nearest-even model valid for any precision; decoding panics iff it reaches a FieldValue::Enum (todo!(), new finding F19) and otherwise returns Ok/Err; Null into Option is None and into anything else an Err, tuple length mismatch is an Err, no kind coercion; rows: every present field holds the decoding of its row value, an absent key is accepted only for Option fields (None), extra keys are ignored without inspecting their value; edge parameters use the same function. The tie re-runs try_into_struct of the current /repo build (with the real serde) against the model on ~12k cases per run, including 18 real EdgeParameters maps from the frontend, and the oracle re-checks exactness of every result with i128/bit arithmetic.",
+        "level_note": "Trusted: Coq kernel; the transcription Decode.v of trustfall's deserializers AND of the serde visitors they forward to (tied by the differential run only); IEEE-754 casts modelled as round-to-nearest-even; the harness and renderers.",
+    },
+}
+
+TB_ENGINE = TB_COMMON + [
+    "Exec.v is a hand transcription of execution.rs / filtering.rs::apply_filter / the DataContext helpers with lazy iterator pipelines modelled as list functions (pull order is not modelled); Sem.v is the specification",
+    "the regex crate is an oracle (Section variable re_match; in the tie a finite table computed by the harness with the real crate)",
+    "datasets: Graph.v::graph_of_dataset and harness world.rs::GraphAdapter are two implementations of the same finite-graph semantics (neighbours do not depend on the static type named in the call); the world schema is fixed (harness/src/world.rs), datasets/queries/arguments are generated",
+]
+
+PROPS["C01"] = {
+    "coq": "theories/Properties/C01.v",
+    "sub": "c01",
+    "n": {"quick": 350, "thorough": 6000},
+    "canon": "rows-multiset",
+    "level": "proof",
+    "rule": "each evaluation is one generated world: a random dataset (2-11 vertices, boundary integers of both signednesses, nulls, lists, duplicate neighbours, cycles) over the fixed 5-type schema, a grammar-generated query accepted by the real frontend (nesting depth <= 4 of plain/@optional/@recurse(1..3)/@fold edges, coercions, every filter operator with variables and tags incl. tags imported into folds and fold-count tags, @transform(count) with filters/outputs/tags, parameterised edges) and type-directed arguments (often drawn from the dataset so filters match). Every world is evaluated twice: Exec model vs interpret_ir (kind tie) and Sem specification vs interpret_ir (kind oracle), rows compared as multisets. Non-trivial = returned at least one row or used >= 2 of the edge/fold/tag features; distinct by query text.",
+    "trusted_base": TB_ENGINE,
+    "assumptions": ["adapter honours the contract (GraphAdapter does by construction)", "arguments accepted by the engine's own validation"],
+    "level_text": "Specification-sanity theorems about Sem.v (missing-@optional scopes pass, filters keep exactly the satisfying rows, @recurse = reachability within d gated hops, with multiplicities = paths) are proved for all inputs; the engine-model-equals-specification theorem is proved in stages (see Properties/C01.v for exactly which fragment is closed). Independently of the proof, every run compares the REAL engine with the executable specification Sem.v on hundreds (thorough: thousands) of generated worlds, and the Exec.v transcription with the real engine on the same worlds.",
+    "level_note": "Partial proof: the full exec = sem simulation is staged; what is not yet proved is covered only by the differential oracle. Trusted: Coq kernel, the transcriptions, the harness, the regex oracle table.",
+}
+
+PROPS["C04"] = {
+    "coq": "theories/Properties/C04.v",
+    "sub": "c04",
+    "bin": "tfh_hints",
+    "n": {"quick": 900, "thorough": 12000},
+    "level": "proof",
+    "search_factor": 3,
+    "rule": "(filled in below)",
+    "trusted_base": TB_ENGINE,
+    "assumptions": [],
+    "level_text": "Coq theorems over ALL row values and ALL targets (any nesting of Option/Vec/tuples; all 8 integer targets x both integer kinds x all 2^64 integers of either signedness), closed under the global context: an in-range integer decodes to exactly itself and an out-of-range one is a returned Err(range), never a wrapped/truncated number (decode_int_range/int_ok/int_spec, also at row level); outside the two F16 classes every Ok result denotes the row value (decode_exact: same integer/string/bool/float bits, None iff null, element-wise lists, f32 numerically equal to the f64); the full-strength statement is refuted with the witnesses Int64(2^53+1)->f64, Uint64(u64::MAX)->f64, Float64(1e300)->f32=inf; the classes are characterised exactly (the `as` result equals the source iff the integer has <= 53/24 significant bits, resp. iff some finite binary32 equals the binary64 value) from a proved round-to-nearest-even model valid for any precision; decoding panics iff it reaches a FieldValue::Enum (todo!(), new finding F19) and otherwise returns Ok/Err; Null into Option is None and into anything else an Err, tuple length mismatch is an Err, no kind coercion; rows: every present field holds the decoding of its row value, an absent key is accepted only for Option fields (None), extra keys are ignored without inspecting their value; edge parameters use the same function. The tie re-runs try_into_struct of the current /repo build (with the real serde) against the model on ~12k cases per run, including 18 real EdgeParameters maps from the frontend, and the oracle re-checks exactness of every result with i128/bit arithmetic.",
+    "level_note": "(filled in below)",
+}
+
+PROPS["C05"] = {
+    "coq": "theories/Properties/C05.v",
+    "sub": "c05",
+    "bin": "tfh_hints",
+    "n": {"quick": 1000, "thorough": 15000},
+    "level": "proof",
+    "search_factor": 3,
+    "rule": "(filled in below)",
+    "trusted_base": TB_ENGINE,
+    "assumptions": [],
+    "level_text": "Coq theorems over ALL row values and ALL targets (any nesting of Option/Vec/tuples; all 8 integer targets x both integer kinds x all 2^64 integers of either signedness), closed under the global context: an in-range integer decodes to exactly itself and an out-of-range one is a returned Err(range), never a wrapped/truncated number (decode_int_range/int_ok/int_spec, also at row level); outside the two F16 classes every Ok result denotes the row value (decode_exact: same integer/string/bool/float bits, None iff null, element-wise lists, f32 numerically equal to the f64); the full-strength statement is refuted with the witnesses Int64(2^53+1)->f64, Uint64(u64::MAX)->f64, Float64(1e300)->f32=inf; the classes are characterised exactly (the `as` result equals the source iff the integer has <= 53/24 significant bits, resp. iff some finite binary32 equals the binary64 value) from a proved round-to-nearest-even model valid for any precision; decoding panics iff it reaches a FieldValue::Enum (todo!(), new finding F19) and otherwise returns Ok/Err; Null into Option is None and into anything else an Err, tuple length mismatch is an Err, no kind coercion; rows: every present field holds the decoding of its row value, an absent key is accepted only for Option fields (None), extra keys are ignored without inspecting their value; edge parameters use the same function. The tie re-runs try_into_struct of the current /repo build (with the real serde) against the model on ~12k cases per run, including 18 real EdgeParameters maps from the frontend, and the oracle re-checks exactness of every result with i128/bit arithmetic.",
+    "level_note": "(filled in below)",
+}
+
+PROPS["C09"] = {
+    "coq": "theories/Properties/C09.v",
+    "sub": "c09",
+    "n": {"quick": 500, "thorough": 8000},
+    "level": "proof",
+    "rule": "generated worlds as for C01 but with the known-defect knobs raised (non-regex strings, ordering on lists, repeated tag uses inside folds, count filters everywhere incl. under @optional, huge/negative counts); each is run to completion under catch_unwind. Tie: the Exec model predicts ROWS/PANIC for the same world. Non-trivial as for C01.",
+    "trusted_base": TB_ENGINE,
+    "assumptions": ["adapter honours the contract", "arguments accepted by argument validation"],
+    "level_text": "Every unwrap/expect/index/assert!/unreachable! of execution.rs, filtering.rs::apply_filter and the DataContext helpers is an explicit Panic outcome of the Exec.v model; theorems show panic-freedom of the fold-count limit computation and of the stack discipline lemmas proved so far (see Properties/C09.v); the model's panic prediction is compared with catch_unwind(interpret_ir) on every generated world, and any panic outside the recorded known classes is a violation with the world as replay.",
+    "level_note": "Partial proof (the whole-interpreter no-panic theorem is a corollary of the staged C01 simulation). Known classes: K-regex-invalid (F4), K-list-ordering (F5).",
+}
+
+PROPS["C12"] = {
+    "coq": "theories/Properties/C12.v",
+    "sub": "c12",
+    "bin": "tfh_c12",
+    "n": {"quick": 300, "thorough": 2500},
+    "level": "proof",
+    "search_factor": 4,
+    "rule": "each evaluation is one (compiled query, argument map) pair run through InterpretedQuery::from_query_and_arguments under catch_unwind, or one query's recorded variable types. Queries: n accepted queries with >= 1 variable from the engine generator over the world schema (plus a tenth without variables), and n queries of a multi-use family over an 18-property schema (Int/String/Float/Boolean, lists to depth 3 in every nullability pattern) in which 1-2 variables are each used by 2-5 filters (all 20 binary operators; vertex filters, fold-count post-filters, filters inside a fold and a nested fold), so that recorded types are genuine meets or the frontend refuses with IncompatibleVariableTypeRequirements. From each query's VALID argument map a malformed stream is derived with the seeded PRNG (9 resp. 5 variants): one argument dropped; an extra argument (names sorting before/between/after the variables, prefixes and extensions of variable names, empty and non-ASCII names); a value of another base type, a list for a scalar, a scalar for a list, one level too deep / too shallow, a wrong or null element after valid ones, Null; a FieldValue::Enum bare / after valid elements / after an invalid element / nested (F6); an arbitrary value; the empty map; only extras; combinations of 2-4 faults; plus 8 fixed witnesses. A pair is non-trivial when the query has variables or the map is non-empty; distinct by (variables, arguments). Direct oracle on every pair: missing / unused / ill-typed names recomputed from ir_query.variables with a first-principles validity function (cross-checked against the real Type::is_valid_value on enum-free values), and the implementation's verdict, error variants, names, order, type texts and offending values compared with it; on every accepted query: ir_query.variables equals the Type::intersect-fold (in both directions) of all use-site types found by walking the IR, the use-site types equal the harness' own reading of the inference rules, and a multi-use query is refused iff some variable's use-site types have no meet.",
+    "trusted_base": TB_COMMON + [
+        "BTreeMap<Arc<str>, _> is modelled as a key-sorted association list (iteration in byte-wise str order = String.compare; get/contains_key = first match); theorems about order use sorted_keys, the acceptance/refusal theorems hold for arbitrary association lists",
+        "Type::is_valid_value / Type::intersect / Display for Type are the Ty.v transcriptions (tied by C17); types are read through (base_type(), __verif_mask())",
+        "for frontend-refused multi-use queries the use-site list given to the model is computed by the harness' own reading of infer_variable_type (cross-checked against the IR on every accepted query)",
+    ],
+    "assumptions": ["use-site types are well formed (C17) for the variables_are_meets theorems; none for the validation theorems", "argument values contain no FieldValue::Enum for the refusal/no-panic theorems (complement of the known class K-enum-arg)"],
+    "level_text": "Coq theorems, closed under the global context, over ALL variable maps and ALL argument maps (any names, values of any nesting): the map is accepted iff every variable has a value valid for its type and every supplied name is a variable (no side condition); a refusal is exactly [one ArgumentTypeError per ill-typed variable with the type's text and the offending value, in key order] ++ [MissingArguments(all missing names) iff non-empty] ++ [UnusedArguments(all unused names) iff non-empty], each name once and in key order on sorted maps, MultipleErrors iff more than one; on enum-free maps validation never panics and refuses iff not acceptable; validation panics exactly when some variable's type check does. The type the query implies: fill_in_query_variables never panics on well-formed use-site types, refuses iff some variable's use-site types have no meet, and otherwise records for every variable the Type::intersect-meet of all its use-site types — a subtype of each, the greatest such, and a value is valid for it iff it is valid for every use site (via C17 valid_meet); hence a compiled query accepts an argument map iff every use site of every variable gets a fitting value and nothing else is supplied. Known genuine defect F6 (a reached FieldValue::Enum hits unimplemented! in is_valid_value: neither accepted nor refused) is proved as a refutation witness and reported as KNOWN-FINDING. The tie re-runs the real validation on ~4.5k pairs and the real frontend's variable recording on ~450 queries per run.",
+    "level_note": "Trusted: Coq kernel; the transcription Args.v over Ty.v (tied by the differential run only); BTreeMaps as key-sorted association lists; the harness, its generators and renderers. The order in which fill_in_query_variables visits use sites is transcribed (uses_of_comp) and tied, but only its result (the meets) is observable.",
+}
+
+PROPS["C19"] = {
+    "coq": "theories/Properties/C19.v",
+    "sub": "c19",
+    "bin": "tfh_c19",
+    "n": {"quick": 700, "thorough": 6000},
+    "level": "proof",
+    "search_factor": 2,
+    "rule": "(filled in below)",
+    "trusted_base": TB_COMMON + [],
+    "assumptions": [],
+    "level_text": "Coq theorems over ALL row values and ALL targets (any nesting of Option/Vec/tuples; all 8 integer targets x both integer kinds x all 2^64 integers of either signedness), closed under the global context: an in-range integer decodes to exactly itself and an out-of-range one is a returned Err(range), never a wrapped/truncated number (decode_int_range/int_ok/int_spec, also at row level); outside the two F16 classes every Ok result denotes the row value (decode_exact: same integer/string/bool/float bits, None iff null, element-wise lists, f32 numerically equal to the f64); the full-strength statement is refuted with the witnesses Int64(2^53+1)->f64, Uint64(u64::MAX)->f64, Float64(1e300)->f32=inf; the classes are characterised exactly (the `as` result equals the source iff the integer has <= 53/24 significant bits, resp. iff some finite binary32 equals the binary64 value) from a proved round-to-nearest-even model valid for any precision; decoding panics iff it reaches a FieldValue::Enum (todo!(), new finding F19) and otherwise returns Ok/Err; Null into Option is None and into anything else an Err, tuple length mismatch is an Err, no kind coercion; rows: every present field holds the decoding of its row value, an absent key is accepted only for Option fields (None), extra keys are ignored without inspecting their value; edge parameters use the same function. The tie re-runs try_into_struct of the current /repo build (with the real serde) against the model on ~12k cases per run, including 18 real EdgeParameters maps from the frontend, and the oracle re-checks exactness of every result with i128/bit arithmetic.",
+    "level_note": "(filled in below)",
+}
+
+
+def _c27_runner(prop, cfg, tier, seed, t0):
+    # imported lazily so that a defect in tools/c27_runner.py cannot affect other properties' checks
+    from c27_runner import run
+    return run(prop, cfg, tier, seed, t0)
+
+
+PROPS["C27"] = {
+    "coq": "theories/Properties/C27.v",
+    "sub": "c27",
+    "bin": "tfh_c27",
+    "runner": _c27_runner,
+    "n": {"quick": 40, "thorough": 400},
+    "nrandom": {"quick": 300, "thorough": 4000},
+    "level": "partial",
+    "search": False,
+    "rule": "conversion probes (two evaluations each: as a query ARGUMENT, observing the FieldValue that arrives in the engine through the engine's own type-mismatch message or the kind of ValueError raised; and as a PROPERTY VALUE returned by a Python adapter and output by the query, observing the Python object that comes back or the Rust panic): a fixed list of 123 objects (None, bools, ints at every boundary -2^63-1 / -2^63 / 2^63-1 / 2^63 / 2^64-1 / 2^64 / 2^64+1, round-half-even decision points at 2^70 and 2^100, 10^400, the float-overflow edge 2^1024-2^970 and its predecessor with both signs, floats incl. +-0.0, subnormal, f64::MAX, inf, -inf, nan, ASCII / UTF-8 / escaped / astral / lone-surrogate strings, empty / null-padded / heterogeneous / mixed-sign / nested (depth 3) lists, dict / tuple / bytes / set / complex / function / range objects, int / float / str / list subclasses, objects with __index__ / __float__) plus n seeded random objects (nested lists to depth 3 mostly of one element kind, ints around the 64-bit limits and beyond up to 1025 bits built around the int->float rounding decision points, arbitrary float bit patterns incl. NaN/inf); a probe is non-trivial unless it is None, a bool, an int below 2^31, a plain ASCII string or an unsupported object; distinct by channel + classified object. Engine agreement: n generated worlds (the C01 generator: random dataset over the 5-type schema, generated query with filters / tags / folds / recursion / optional / coercions / edge parameters, generated arguments) are run by the Rust engine over the harness' GraphAdapter and, rebuilt from JSON, by trustfall.execute_query over a Python Adapter mirroring it; the ordered row lists must be equal (values rendered canonically, integer kind erased since Python has one int type). Also 5 malformed calls (arguments not a dict, non-str key, adapter not an Adapter) must raise.",
+    "trusted_base": TB_COMMON + [
+        "CPython 3.11 and pyo3 0.29 are OUTSIDE the model. A Python object is represented by what pyo3's primitive extractions observe of it (pyobj: None / bool / unbounded int / float bits / UTF-8 str / list / other); the classification of real objects into pyobj is done by tools/c27_driver.py::classify (trusted)",
+        "pyo3's primitive extraction rules are MODELLED in a few lines of PyConv.v and tied only by the probe run: is_none; bool only for exact bools; i64/u64 through __index__ with OverflowError outside the type's range (bool is an int, hence the cascade order matters); f64 accepts floats and, through PyFloat_AsDouble, every int (correctly rounded half-to-even, OverflowError when the result is not below 2^1024); String for str that encodes to UTF-8; cast::<PyList> for list instances",
+        "the FieldValue arriving in the engine is read from the engine's error text `cannot be converted to that type: <Debug>` (parsed by the driver) and conversion errors are classified by message text (nonfinite / hetero / unsupported)",
+        "the Python GraphAdapter in tools/c27_driver.py and the Rust GraphAdapter in harness/src/world.rs are two implementations of the same finite graph (same params_keep rule); the extension module is built by `cargo build --release --offline -p pytrustfall` from /repo's working tree into /verif/.cache/target_py and imported from a mkdtemp package directory (removed afterwards)",
+    ],
+    "assumptions": ["values sent from Rust to Python contain no FieldValue::Enum (into_pyobject is todo!() for it; nothing in pytrustfall creates one)", "floats held by the engine are finite (FieldValue's documented invariant; extract enforces it on the way in)"],
+    "level_text": "PARTIAL. Coq theorems, closed under the global context, over ALL Python objects (unbounded ints, every float bit pattern, any list nesting) and ALL field values decide the conversion logic of pytrustfall/src/value.rs: extract is faithful (denotes) and Python->Rust->Python is the identity on every object without an int outside [-2^63, 2^64); ints are exact on the whole 64-bit range with the Int64/Uint64 split at 2^63; whatever arrives is a well-formed, enum-free FieldValue; unsupported objects, non-finite floats, ints of magnitude >= 2^1024, lists with a non-convertible element and lists whose non-null elements convert to different variants are rejected (the list branch is characterised completely, including that the homogeneity check is shallow); Rust->Python->Rust returns a value equal under the C08 equality exactly for values whose lists have a homogeneous Python image, and is rejected otherwise. The three unrestricted statements are refuted in Coq with concrete witnesses (classes K-py-bigint-float, K-py-mixed-int-list), confirmed on the real binding on every run. 'Same rows as the Rust engine' is NOT proved: it is observed on generated worlds through the real extension module (plus C01 for the engine itself).",
+    "level_note": "Partial: CPython, pyo3 and the AdapterShim's iterator plumbing are outside any Coq model; the engine-agreement half is a differential run. Trusted: Coq kernel; the transcription PyConv.v incl. the modelled pyo3 primitives (tied by the probe run only); the driver's classification and renderers; the harness. Known classes: K-py-bigint-float, K-py-mixed-int-list.",
 }
 
 NOT_APPLICABLE = {}
